@@ -30,6 +30,9 @@ fn _get_std_fds(redirects: &[Redirection]) -> (Option<RawFd>, Option<RawFd>) {
 
             if item.2 == "&2" {
                 let (_fd_out, _fd_err) = _get_std_fds(&redirects[i+1..]);
+                if let Some(fd) = _fd_out {
+                    unsafe { libc::close(fd); }
+                }
                 if let Some(fd) = _fd_err {
                     _fd_candidate = Some(fd);
                 } else {
